@@ -20,7 +20,7 @@ def hexs(s):
   return "s" + s.encode("utf-8").hex()
 
 
-def value_tokens(o, out=None, cls_ref=None):
+def value_tokens(o, out=None, cls_ref=None, drop_cache=False):
   """Real Python object -> token list of the model's [value].
 
   cls_ref (a dict) is given for resolved type nodes: a ClassType's class pointer may lead anywhere (also back to
@@ -50,12 +50,12 @@ def value_tokens(o, out=None, cls_ref=None):
   elif isinstance(o, tuple):
     out += ["(", "t"]
     for x in o:
-      value_tokens(x, out, cls_ref)
+      value_tokens(x, out, cls_ref, drop_cache)
     out.append(")")
   elif isinstance(o, list):
     out += ["(", "l"]
     for x in o:
-      value_tokens(x, out, cls_ref)
+      value_tokens(x, out, cls_ref, drop_cache)
     out.append(")")
   elif isinstance(o, (set, frozenset)):
     out += ["(", "S"]
@@ -64,7 +64,7 @@ def value_tokens(o, out=None, cls_ref=None):
     except TypeError:
       items = sorted(o, key=repr)
     for x in items:
-      value_tokens(x, out, cls_ref)
+      value_tokens(x, out, cls_ref, drop_cache)
     out.append(")")
   elif isinstance(o, dict):
     out += ["(", "d"]
@@ -72,7 +72,7 @@ def value_tokens(o, out=None, cls_ref=None):
       if not isinstance(k, str):
         raise Untranslatable("dict key %r" % (k,))
       out.append(hexs(k))
-      value_tokens(v, out, cls_ref)
+      value_tokens(v, out, cls_ref, drop_cache)
     out.append(")")
   elif isinstance(o, msgspec.Struct):
     out += ["(", "c", hexs(type(o).__name__)]
@@ -80,8 +80,11 @@ def value_tokens(o, out=None, cls_ref=None):
       v = getattr(o, f)
       if cls_ref is not None and f == "cls" and type(o).__name__ == "ClassType" and v is not None:
         out.append(hexs("cls#%d" % cls_ref.setdefault(id(v), len(cls_ref))))
+      elif drop_cache and f == "_name2item":
+        # the lookup cache is private state, not part of the preparation model's input (see c12_prep.py)
+        out += ["(", "d", ")"]
       else:
-        value_tokens(v, out, cls_ref)
+        value_tokens(v, out, cls_ref, drop_cache)
     out.append(")")
   else:
     raise Untranslatable(repr(type(o)))
